@@ -1,9 +1,10 @@
 #!/bin/bash
-# run a property's check against a seeded change applied to the scratch worktree /tmp/mut (not /repo); verdict only, evidence untouched
+# run a property's check (proof part + bounded stand-in on a scratch copy of the replay crate) against a seeded change applied to the
+# scratch worktree /tmp/mut (not /repo); verdict only, evidence untouched. VERIF_SCRATCH_REPLAY= (empty) skips the stand-in.
 # usage: tools/seed_scratch.sh <patch.diff> <pid> [tier]
 patch=$1; pid=$2; tier=${3:-quick}
 [ -d /tmp/mut ] || git -C /repo worktree add --detach /tmp/mut HEAD >/dev/null 2>&1
 git -C /tmp/mut checkout -q --detach $(git -C /repo rev-parse HEAD); git -C /tmp/mut checkout -- .; git -C /tmp/mut clean -qfd
 git -C /tmp/mut apply $patch || { echo "PATCH DOES NOT APPLY"; exit 3; }
-cd /verif && VERIF_REPO=/tmp/mut VERIF_NO_EVIDENCE=1 ./check $pid --tier $tier | grep -E "VIOLATION|UNDECIDED|KNOWN|OK|FAILED|NOTE" | sed 's/replay=[^ ]* //' | cut -c1-330
+cd /verif && VERIF_REPO=/tmp/mut VERIF_NO_EVIDENCE=1 VERIF_SCRATCH_REPLAY=${VERIF_SCRATCH_REPLAY-1} ./check $pid --tier $tier | grep -E "VIOLATION|UNDECIDED|KNOWN|OK|FAILED|NOTE" | sed 's/replay=[^ ]* //' | cut -c1-330
 git -C /tmp/mut checkout -- .; git -C /tmp/mut clean -qfd
